@@ -23,12 +23,12 @@ type panicOb struct {
 
 // minLenOf: values whose length is known from the callee's contract.
 var trustedMinLen = map[string]int64{
-	"geth/crypto.Keccak256":        32,
-	"(geth/common.Hash).Bytes":     32,
-	"(geth/common.Address).Bytes":  20,
-	"geth/crypto.Keccak256Hash":    32,
-	"(N/vaa.Address).Bytes":        32,
-	"(N/alephium.Byte32).ToHex":    64,
+	"geth/crypto.Keccak256":       32,
+	"(geth/common.Hash).Bytes":    32,
+	"(geth/common.Address).Bytes": 20,
+	"geth/crypto.Keccak256Hash":   32,
+	"(N/vaa.Address).Bytes":       32,
+	"(N/alephium.Byte32).ToHex":   64,
 }
 
 // knownMinLen returns a lower bound for len(v) that follows from how v was produced, or -1.
@@ -177,6 +177,8 @@ func boundsObligations(p *load.Program, fn *ssa.Function) []panicOb {
 				ob.OK, ob.Why = true, "index type cannot exceed the array length"
 			case rangeIndexOver(idx, base):
 				ob.OK, ob.Why = true, "range index of the ranged value"
+			case madeWithLen(fn, base) != nil && indexBelow(idx, madeWithLen(fn, base), fs):
+				ob.OK, ob.Why = true, "slice was made with the length that bounds the index"
 			case isK:
 				if n := knownMinLen(base, fs); n > k {
 					ob.OK, ob.Why = true, fmt.Sprintf("length >= %d established on every path", n)
@@ -278,4 +280,63 @@ func idxTypeBound(v ssa.Value) int64 {
 		}
 	}
 	return -1
+}
+
+// madeWithLen returns the length value L when base is a slice created by make([]T, L) — either
+// directly or through the unique store to the field of a local allocation it is loaded from.
+func madeWithLen(fn *ssa.Function, base ssa.Value) ssa.Value {
+	if ms, ok := base.(*ssa.MakeSlice); ok {
+		return ms.Len
+	}
+	u, ok := base.(*ssa.UnOp)
+	if !ok || u.Op != token.MUL {
+		return nil
+	}
+	fa, ok := u.X.(*ssa.FieldAddr)
+	if !ok {
+		return nil
+	}
+	al, ok := fa.X.(*ssa.Alloc)
+	if !ok {
+		return nil
+	}
+	fld := fieldOfAddr(fa)
+	var found ssa.Value
+	n := 0
+	eachInstr(fn, func(i ssa.Instruction) {
+		if st, ok := i.(*ssa.Store); ok {
+			if fa2, ok := st.Addr.(*ssa.FieldAddr); ok && fa2.X == al && fieldOfAddr(fa2) == fld {
+				n++
+				if ms, ok := st.Val.(*ssa.MakeSlice); ok {
+					found = ms.Len
+				}
+			}
+		}
+	})
+	if n != 1 {
+		return nil
+	}
+	return found
+}
+
+// indexBelow: idx is a range index bounded by L, or a must-hold fact idx < L exists (L compared by term).
+func indexBelow(idx, L ssa.Value, fs []facts.Fact) bool {
+	lt := facts.Term(L)
+	if b, ok := idx.(*ssa.BinOp); ok && b.Op == token.ADD {
+		if ph, ok := b.X.(*ssa.Phi); ok && ph.Comment == "rangeindex" {
+			hdr := ph.Block()
+			if iff, ok := hdr.Instrs[len(hdr.Instrs)-1].(*ssa.If); ok {
+				if bo, ok := iff.Cond.(*ssa.BinOp); ok && bo.Op == token.LSS && bo.X == idx && facts.Term(bo.Y) == lt {
+					return true
+				}
+			}
+		}
+	}
+	for _, f := range fs {
+		a, op, b, ok := cmpOf(f)
+		if ok && op == token.LSS && facts.Term(a) == facts.Term(idx) && facts.Term(b) == lt {
+			return true
+		}
+	}
+	return false
 }
